@@ -81,7 +81,7 @@ theorem recover_keeps_applied (hist : List C22.Op) (dn : Down) (peers : Config) 
   intro n r
   have g := C22.good_run C22.good_init hist
   obtain ⟨hd, ht, hh, _⟩ := goDown_spec g dn
-  have hd' : DurInv { goDown n dn with peersFile := some peers } := ⟨hd.snap_le, hd.nosnap, hd.fp_ok⟩
+  have hd' : DurInv { goDown n dn with peersFile := some peers } := ⟨hd.snap_le, hd.nosnap, hd.fp_ok, hd.fp_le⟩
   have ht' : truth { goDown n dn with peersFile := some peers } = n.live := ht
   obtain ⟨a, b, c, _, e, f, gq, _, i⟩ := open_recover_truth hd' peers rfl hv
   refine ⟨by rw [a, ht'], ?_, ?_, ?_, e, f, gq⟩
@@ -97,7 +97,7 @@ theorem recover_config_is_peers_file (hist : List C22.Op) (dn : Down) (peers : C
     (openNode { goDown (C22.run {} hist) dn with peersFile := some peers }).config = peers := by
   have g := C22.good_run C22.good_init hist
   obtain ⟨hd, _, _, _⟩ := goDown_spec g dn
-  have hd' : DurInv { goDown (C22.run {} hist) dn with peersFile := some peers } := ⟨hd.snap_le, hd.nosnap, hd.fp_ok⟩
+  have hd' : DurInv { goDown (C22.run {} hist) dn with peersFile := some peers } := ⟨hd.snap_le, hd.nosnap, hd.fp_ok, hd.fp_le⟩
   exact (open_recover_truth hd' peers rfl hv).2.2.2.1
 
 /-- **invalid_peers_file_rejected**: a peers file that fails the validation (empty or duplicate id
@@ -112,13 +112,13 @@ theorem invalid_peers_file_rejected (hist : List C22.Op) (dn : Down) (peers : Co
   intro n f
   have g := C22.good_run C22.good_init hist
   obtain ⟨hd, ht, _, _⟩ := goDown_spec g dn
-  have hd' : DurInv { goDown n dn with peersFile := some peers } := ⟨hd.snap_le, hd.nosnap, hd.fp_ok⟩
+  have hd' : DurInv { goDown n dn with peersFile := some peers } := ⟨hd.snap_le, hd.nosnap, hd.fp_ok, hd.fp_le⟩
   obtain ⟨e, hdf, htf⟩ := open_invalid_peers hd' peers rfl hv
   have hup : (goDown n dn).up = false := by cases dn <;> rfl
   have hf : f = { goDown n dn with peersFile := some peers, fp := false } := e
   refine ⟨by rw [hf]; exact hup, by rw [hf], by rw [hf], ?_⟩
   have hd2 : DurInv { f with peersFile := none } := by
-    rw [hf]; exact ⟨hd.snap_le, hd.nosnap, fun hx => by cases hx⟩
+    rw [hf]; exact ⟨hd.snap_le, hd.nosnap, fun hx => Bool.noConfusion hx, fun hx => Bool.noConfusion hx⟩
   rw [(open_truth hd2 rfl).1]
   show truth f = n.live
   rw [hf]; exact ht
@@ -152,7 +152,8 @@ theorem code_recover_uses_node_fk_setting :
 theorem code_open_checks_recovery_before_fingerprint :
     RqModel.Gen.StoreOrder.openPeersCheckedBeforeFingerprint = some true ∧
     RqModel.Gen.StoreOrder.openSteps =
-      ["snapshot.NewStore", "snapshotStore.Len", "fp.ReadFromFile", "fsutil.ModTimeSize", "rlog.New",
+      ["snapshot.NewStore", "snapshotStore.Len", "fp.ReadFromFile", "fsutil.ModTimeSize", "snapshotStore.LatestIndexTerm",
+       "snapshotStore.LatestIndexTerm", "rlog.New",
        "raft.ReadConfigJSON", "recoverNode", "createDBOnDisk", "os.RemoveAll", "raft.NewRaft"] := ⟨rfl, rfl⟩
 
 /-! ### non-vacuity: a node with a VALID fingerprint and a log tail is recovered -/
